@@ -292,6 +292,21 @@ def _make(cls, value):
 
 register_patch(_orig_make, _make)
 
+_orig_enum_to_text = dns.enum.IntEnum.to_text.__func__
+
+
+def _enum_to_text(cls, value):
+    # names need the concrete member: realize here (CrossHair forks "= v / != v")
+    with NoTracing():
+        sym = isinstance(value, SymbolicInt)
+    if sym:
+        cls._check_value(value)
+        value = realize(value)
+    return _orig_enum_to_text(cls, value)
+
+
+register_patch(_orig_enum_to_text, _enum_to_text)
+
 
 def _mk_flag_patch(flagcls):
     def _flag(value):
